@@ -90,9 +90,15 @@ class World(object):
         real_lg = lark.lark.load_grammar
         saved = (lark.__version__, sys.version_info)
         if self.version: lark.__version__ = self.version
+        self.rebuilt = False
         if must_hit:
             def boom(*a, **k): raise AssertionError('not a cache hit')
             lark.lark.load_grammar = boom
+        else:
+            def counting(*a, **k):
+                self.rebuilt = True
+                return real_lg(*a, **k)
+            lark.lark.load_grammar = counting
         try:
             return Lark(g, parser='lalr', **opts)
         finally:
@@ -103,7 +109,7 @@ class World(object):
         shutil.rmtree(self.dir, ignore_errors=True)
 
 
-def verify_build(w, gi, oi, what, detail):
+def verify_build(w, gi, oi, what, detail, expect_rebuild=False):
     """build with the cache in its present state; compare with an uncached build; then demand a hit"""
     want = behaviour(w.build(gi, oi, cached=False))
     try:
@@ -111,6 +117,8 @@ def verify_build(w, gi, oi, what, detail):
     except Exception as e:
         raise Violation('construction with cache raised %s because of the file state (%s)' % (type(e).__name__, what), grammar=GRAMMARS[gi][0],
                         options=OPTIONS[oi], state=detail, error=str(e)[:300])
+    if expect_rebuild and not w.rebuilt:
+        raise Violation('a cache file written under another lark version was served (%s)' % what, grammar=GRAMMARS[gi][0], options=OPTIONS[oi], state=detail)
     got = behaviour(p)
     if got != want:
         diff = [(pw, a, b) for pw, a, b in zip(ALL_PROBES, got, want) if a != b][:2]
@@ -207,11 +215,14 @@ def histories(draw):
 def check_history(case, ctx):
     w = World()
     damaged = False
+    written_under = None      # lark version in effect when the file was last (re)written
     try:
         for op in case['ops']:
             k = op[0]
             if k == 'build':
-                verify_build(w, op[1], op[2], 'history', {'kind': 'history', 'ops': case['ops']})
+                stale_version = os.path.exists(w.cache) and written_under != w.version
+                verify_build(w, op[1], op[2], 'history', {'kind': 'history', 'ops': case['ops']}, expect_rebuild=stale_version)
+                written_under = w.version
                 ctx.label('build-after-damage' if damaged else 'build')
                 if damaged:
                     ctx.nontrivial(case['ops'], sample={'ops': case['ops']})
@@ -236,6 +247,7 @@ def check_history(case, ctx):
                 # a complete, valid file written at this path for another grammar / option set / module content
                 keep = w.module
                 w.set_module(op[3]); w.build(op[1], op[2], cached=True); w.set_module(keep)
+                written_under = w.version
                 damaged = True
             elif k == 'version':
                 w.version = op[1]; damaged = True
